@@ -62,6 +62,7 @@ def run(ctx):
     float_oracle(ctx, impl)
     # 4. pending calls fail with DeadReferenceError on teardown
     pending_calls(ctx, impl, eps)
+    call_states(ctx, impl, eps)
     tub_level(ctx, impl)
     tm['float+calls+tubs'] = round(_t.time() - ctx.t0, 1)
     # 5. PING / PONG
@@ -540,6 +541,57 @@ def pending_calls(ctx, impl, eps):
         for sig, what in bad:
             ctx.fail(sig, what + "  [K=%r T=%r calls=%d events=%r]" % (K, T, ncalls, ev),
                      replay=dict(K=K, T=T, calls=ncalls, events=ev))
+
+
+# ------------------------------------------------------------------------------------------ pending calls, every state
+
+def call_states(ctx, impl, eps):
+    """'its pending calls fail with DeadReferenceError': at the idle teardown every outstanding callRemote -- queued but
+    not yet written, written, response header (OPEN answer/error + reqID) arrived, response partly arrived (inside nested
+    tokens / inside a token body), complete response waiting for a gift -- fails exactly once with DeadReferenceError at
+    the time of the teardown; calls answered before the silence succeeded exactly once; nothing fires when the
+    transport closes or the gifts resolve later."""
+    import random
+    fixed = random.Random(15)
+    plans = []
+    for st in impl.CALL_STATES:                      # fixed witnesses: every state alone and next to a plain pending call
+        plans.append((None, 3000, [st], None, fixed))
+        plans.append((2000, 3000, ["sent", st, "answered"], 1, fixed))
+    plans.append((None, 1000, ["gift", "gift", "partial", "unsent", "unsent", "answered", "sent"], 7, fixed))
+    rng = ctx.rng
+    for _ in range(ctx.n(80, 1500)):
+        n = rng.randint(1, 6)
+        plans.append((rng.choice([None, 2000]), rng.choice([3000, 1000, 1]), [rng.choice(impl.CALL_STATES) for _ in range(n)],
+                      rng.choice([None, 1, 5, 40]), rng))
+    for K, T, states, csize, r_ in plans:
+        chunk = None if csize is None else (lambda rr, c=csize: rr.randint(1, c))
+        res = impl.call_states(K, T, states, r_, chunk)
+        o = res["o"]
+        ev = list(o.events)
+        ctx.case(["call-states", K, T, res["states"], csize, ev], nontrivial=bool(o.torn))
+        ctx.hist("origin", "call-states")
+        for st in res["states"]:
+            ctx.hist("call-state", st)
+        bad = judge(K, T, eps, 0, ev, o, 0)
+        if len(o.torn) != 1:
+            bad.append(("oracle/late-or-no-teardown", "teardowns after going silent at %r: %r" % (res["t_silent"], o.torn)))
+        else:
+            x = o.torn[0]
+            for i, st in enumerate(res["states"]):
+                got = res["outcomes"][i]
+                if st == "answered":
+                    if len(got) != 1 or got[0][1] != "42" or got[0][0] > res["t_silent"]:
+                        bad.append(("oracle/answered-call-wrong", "call %d was answered with 42 before the silence but ended as %r" % (i, got)))
+                elif got != [(x, "DeadReferenceError")]:
+                    bad.append(("oracle/pending-call-not-failed", "call %d (state at the teardown: %s, reqID %r) ended as %r; expected "
+                                "exactly one DeadReferenceError at the teardown time %r" % (i, st, res["reqids"][i], got, x)))
+            if res["waiting_left"]:
+                bad.append(("oracle/pending-call-not-failed", "requests still registered after the teardown: %r" % (res["waiting_left"],)))
+        for sig, what in bad:
+            ctx.fail(sig, what + "  [K=%r T=%r call states %r, inbound bytes %s fed in chunks of <= %r, events %r]"
+                     % (K, T, res["states"], res["inbound"], csize, ev),
+                     replay=dict(K=K, T=T, states=res["states"], inbound=res["inbound"], chunk=csize, events=ev, payloads=o.payloads,
+                                 outcomes=res["outcomes"]))
 
 
 # ------------------------------------------------------------------------------------------ Tub level
